@@ -1,6 +1,7 @@
 /-
   C09 — helper lemmas about text: numerals contain no blank (`numLit_none_of_ws`), `strip`, the split points of
-  `set_literal`, and the value of `set_literal` on "numeral, space, unit expression".
+  `set_literal` (tried from the right), the literal reader (`readLit`: a complete value followed by a blank and more
+  text is refused), and the value of `set_literal` on "literal value, space, unit expression".
 -/
 import Proofs.C09_Lemmas
 
@@ -189,42 +190,327 @@ theorem mem_splitPoints (term : List Char) (j : Nat) :
     j ∈ splitPoints term ↔ j = term.length ∨ (j < term.length ∧ term[j]? = some ' ') := by
   simp [splitPoints, List.mem_filter, List.mem_range]
 
-variable {K : Type} [Mul K] [Div K] [OfNat K 1] [IntCast K] [NatCast K]
+/-! ### the tokeniser continues after a complete value -/
 
-/-- **set_literal**: a numeral, a space, a unit expression (blanks allowed inside and around it) is the value of the
-    numeral times the parsed factor of the (stripped) unit expression. -/
-theorem setLiteral_value_unit (alg : Alg K) (env : List Char → Option K) (v u : List Char) (me : Int × Int) (f : K)
-    (hv : numLit v = some me) (hu : strip u ≠ [])
-    (hf : parseUnits alg env (some (strip u)) = some f) :
-    setLiteral alg env (v ++ ' ' :: u) = some (litVal me.1 me.2 * f) := by
-  have hvw : noWs v := by
-    intro c hc
+theorem foldlM_append' {α β : Type} (f : β → α → Option β) (b : β) (l1 l2 : List α) :
+    (l1 ++ l2).foldlM f b = (l1.foldlM f b).bind fun b' => l2.foldlM f b' := by
+  simp [List.foldlM_append]
+
+/-- a blank after `v`: the pending word is flushed, the tokens of `v` are on the stack. -/
+theorem tok_after_ws (v : List Char) (ts : List LTok) (h : litToks v = some ts) (w : Char) (hw : isWs w = true) :
+    (v ++ [w]).foldlM tokStep ([], []) = some ([], ts.reverse) := by
+  unfold litToks at h
+  rw [foldlM_append']
+  cases hst : v.foldlM tokStep ([], []) with
+  | none => rw [hst] at h; cases h
+  | some st =>
+    rw [hst] at h
+    simp only [Option.bind_some, Option.map_eq_some_iff] at h
+    obtain ⟨out, hout, rfl⟩ := h
+    have hd : isLitDelim w = true := by simp [isLitDelim, hw]
+    have hdt : delimTok w = [] := by
+      simp only [isWs, Bool.or_eq_true, decide_eq_true_eq] at hw
+      rcases hw with ((rfl | rfl) | rfl) | rfl <;> decide
+    simp [List.foldlM, tokStep, hd, hout, hdt]
+
+/-- from any state, more characters only add tokens (or fail); a pending word or a non-blank character adds at
+    least one. -/
+theorem tok_grows (x : List Char) : ∀ (st : TokSt) (res : List LTok),
+    (x.foldlM tokStep st).bind tokFlush = some res →
+    ∃ more, res = more ++ st.2 ∧ ((st.1 ≠ [] ∨ ∃ c ∈ x, isWs c = false) → more ≠ []) ∧
+      (',' ∉ x → LTok.comma ∉ more) := by
+  induction x with
+  | nil =>
+    intro st res h
+    simp only [List.foldlM, Option.bind_some, Option.pure_def] at h
+    unfold tokFlush at h
+    split at h
+    · rename_i he
+      cases h
+      refine ⟨[], rfl, ?_, fun _ => by simp⟩
+      rintro (h1 | ⟨c, hc, _⟩)
+      · simp_all
+      · cases hc
+    · rcases hp : pyNum st.1.reverse with _ | me
+      · rw [hp] at h; cases h
+      · rw [hp] at h; cases h
+        exact ⟨[.num me.1 me.2], rfl, fun _ => by simp, fun _ => by simp⟩
+  | cons c x ih =>
+    intro st res h
+    simp only [List.foldlM_cons, Option.bind_eq_bind] at h
+    cases hs : tokStep st c with
+    | none => rw [hs] at h; cases h
+    | some st' =>
+      rw [hs] at h
+      simp only [Option.bind_some] at h
+      obtain ⟨more, hres, hmore, hnc⟩ := ih st' res h
+      unfold tokStep at hs
+      split at hs
+      · rename_i hd
+        cases hf : tokFlush st with
+        | none => rw [hf] at hs; cases hs
+        | some out =>
+          rw [hf] at hs
+          simp only [Option.map_some, Option.some.injEq] at hs
+          subst hs
+          -- out = flush of st: st.2 possibly with one more token
+          have hout : ∃ m0, out = m0 ++ st.2 ∧ (st.1 ≠ [] → m0 ≠ []) ∧ LTok.comma ∉ m0 := by
+            unfold tokFlush at hf
+            split at hf
+            · cases hf; exact ⟨[], rfl, fun h => by simp_all, by simp⟩
+            · rcases hp : pyNum st.1.reverse with _ | me
+              · rw [hp] at hf; cases hf
+              · rw [hp] at hf; cases hf; exact ⟨[.num me.1 me.2], rfl, fun _ => by simp, by simp⟩
+          obtain ⟨m0, rfl, hm0, hm0c⟩ := hout
+          refine ⟨more ++ delimTok c ++ m0, by simp [hres], ?_, ?_⟩
+          rotate_left
+          · intro hcx
+            have h1 : LTok.comma ∉ more := hnc (fun h => hcx (List.mem_cons_of_mem _ h))
+            have h2 : LTok.comma ∉ delimTok c := by
+              have hc : c ≠ ',' := fun h => hcx (h ▸ List.mem_cons_self ..)
+              unfold delimTok
+              split_ifs <;> simp_all
+            simp [h1, h2, hm0c]
+          rintro (h1 | ⟨c', hc', hcw⟩)
+          · have := hm0 h1
+            simp [this]
+          · rcases List.mem_cons.mp hc' with rfl | hc'
+            · -- c itself is a non-blank delimiter: it gives a token
+              have : delimTok c' ≠ [] := by
+                simp only [isLitDelim, hcw, Bool.false_or, Bool.or_eq_true, decide_eq_true_eq] at hd
+                rcases hd with (((rfl | rfl) | rfl) | rfl) | rfl <;> decide
+              simp [this]
+            · have := hmore (Or.inr ⟨c', hc', hcw⟩)
+              simp [this]
+      · cases hs
+        refine ⟨more, hres, ?_, fun hcx => hnc (fun h => hcx (List.mem_cons_of_mem _ h))⟩
+        intro _
+        exact hmore (Or.inl (by simp))
+
+/-- the tokens of `v`, a blank, and more text with a non-blank character: the tokens of `v` and at least one more. -/
+theorem litToks_extend (v x : List Char) (ts : List LTok) (h : litToks v = some ts) (hx : ∃ c ∈ x, isWs c = false)
+    (hcomma : ',' ∉ x)
+    (res : List LTok) (hr : litToks (v ++ ' ' :: x) = some res) :
+    ∃ more, more ≠ [] ∧ LTok.comma ∉ more ∧ res = ts ++ more := by
+  have e : v ++ ' ' :: x = (v ++ [' ']) ++ x := by simp
+  unfold litToks at hr
+  rw [e, foldlM_append', tok_after_ws v ts h ' ' (by decide)] at hr
+  simp only [Option.bind_some] at hr
+  cases hst : x.foldlM tokStep ([], ts.reverse) with
+  | none => rw [hst] at hr; cases hr
+  | some st =>
+    rw [hst] at hr
+    simp only [Option.bind_some, Option.map_eq_some_iff] at hr
+    obtain ⟨out, hout, rfl⟩ := hr
+    obtain ⟨more, hres, hmore, hnc⟩ := tok_grows x ([], ts.reverse) out (by rw [hst]; exact hout)
+    refine ⟨more.reverse, by simpa using hmore (Or.inr hx), by simpa using hnc hcomma, ?_⟩
+    simp [hres]
+
+/-! ### a complete value followed by tokens other than a comma is refused -/
+
+theorem parStep_popped (x : Lit) (t : LTok) : parStep ([], some x) t = none := by
+  cases t <;> rfl
+
+theorem foldlM_popped (x : Lit) (ts : List LTok) (hne : ts ≠ []) : ts.foldlM parStep ([], some x) = none := by
+  cases ts with
+  | nil => exact absurd rfl hne
+  | cons t ts => simp [List.foldlM_cons, parStep_popped]
+
+/-- after a text that ended on an item, tokens that do not start with a comma lead nowhere. -/
+theorem par_extend (fr : Frame) (x : Lit) (more : List LTok) (hne : more ≠ []) (hc : LTok.comma ∉ more) :
+    parEnd (more.foldlM parStep ([fr], some x)) = none := by
+  cases more with
+  | nil => exact absurd rfl hne
+  | cons t more =>
+    simp only [List.foldlM_cons]
+    cases t with
+    | num m e => rfl
+    | lopen p => rfl
+    | comma => exact absurd (List.mem_cons_self ..) hc
+    | lclose q =>
+      cases hs : parStep ([fr], some x) (.lclose q) with
+      | none => rfl
+      | some st =>
+        -- the implicit group is closed: the stack is empty from now on
+        have hst : ∃ y, st = ([], some y) := by
+          unfold parStep at hs
+          simp only at hs
+          split at hs
+          · cases hs
+          · split at hs <;> (cases hs; exact ⟨_, rfl⟩)
+        obtain ⟨y, rfl⟩ := hst
+        simp only [Option.bind_eq_bind, Option.bind_some]
+        cases more with
+        | nil => rfl
+        | cons t' more' => rw [foldlM_popped y (t' :: more') (by simp)]; rfl
+
+/-- the final parser state of a text that ended on an item: only the implicit group is open and a value is waiting. -/
+theorem parEnd_item (st : Option ParSt) (lit : Lit) (h : parEnd st = some (lit, true)) :
+    ∃ fr x, st = some ([fr], some x) := by
+  cases st with
+  | none => cases h
+  | some s =>
+    obtain ⟨stack, cur⟩ := s
+    cases stack with
+    | nil => cases h
+    | cons fr stack =>
+      cases stack with
+      | cons _ _ => cases h
+      | nil =>
+        cases cur with
+        | some x => exact ⟨fr, x, rfl⟩
+        | none =>
+          exfalso
+          unfold parEnd at h
+          simp only at h
+          split at h
+          · split at h
+            · cases h
+            · cases h
+          · cases h
+
+theorem readLit_extend (v x : List Char) (lit : Lit) (h : readLitCore v = some (lit, true))
+    (hx : ∃ c ∈ x, isWs c = false) (hcomma : ',' ∉ x) : readLit (v ++ ' ' :: x) = none := by
+  unfold readLit
+  unfold readLitCore at h ⊢
+  cases hts : litToks v with
+  | none => rw [hts] at h; cases h
+  | some ts =>
+    rw [hts] at h
+    simp only [Option.bind_some] at h
+    cases hr : litToks (v ++ ' ' :: x) with
+    | none => rfl
+    | some res =>
+      obtain ⟨more, hne, hnc, rfl⟩ := litToks_extend v x ts hts hx hcomma res hr
+      simp only [Option.bind_some]
+      rw [foldlM_append']
+      obtain ⟨fr, y, hst⟩ := parEnd_item _ lit h
+      rw [hst]
+      simp only [Option.bind_some]
+      rw [par_extend fr y more hne hnc]
+      rfl
+
+/-! ### strip on a value without blanks at its ends -/
+
+theorem length_dropWhile_le' (p : Char → Bool) (l : List Char) : (l.dropWhile p).length ≤ l.length :=
+  (List.dropWhile_sublist p).length_le
+
+theorem rstrip_length_le (s : List Char) : (rstrip s).length ≤ s.length := by
+  unfold rstrip
+  simp only [List.length_reverse]
+  have := length_dropWhile_le' isWs s.reverse
+  simpa using this
+
+/-- `strip v = v`, `v ≠ []`: the first character is not a blank. -/
+theorem head_of_strip {v : List Char} (hs : strip v = v) (hne : v ≠ []) : ∃ c r, v = c :: r ∧ isWs c = false := by
+  cases v with
+  | nil => exact absurd rfl hne
+  | cons c r =>
+    refine ⟨c, r, rfl, ?_⟩
     cases hw : isWs c with
     | false => rfl
-    | true => rw [numLit_none_of_ws v c hc hw] at hv; cases hv
+    | true =>
+      exfalso
+      have h1 : (strip (c :: r)).length ≤ r.length := by
+        rw [strip_eq]
+        simp only [List.dropWhile_cons, hw, if_true]
+        exact Nat.le_trans (rstrip_length_le _) (length_dropWhile_le' _ _)
+      rw [hs] at h1
+      simp only [List.length_cons] at h1
+      omega
+
+theorem rstrip_of_strip {v : List Char} (hs : strip v = v) (hne : v ≠ []) : rstrip v = v := by
+  obtain ⟨c, r, rfl, hc⟩ := head_of_strip hs hne
+  rw [strip_eq] at hs
+  simpa [List.dropWhile_cons, hc] using hs
+
+theorem dropWhile_of_strip {v : List Char} (hs : strip v = v) (hne : v ≠ []) (x : List Char) :
+    (v ++ x).dropWhile isWs = v ++ x := by
+  obtain ⟨c, r, rfl, hc⟩ := head_of_strip hs hne
+  simp [List.dropWhile_cons, hc]
+
+/-- the last character of a stripped value is not a blank. -/
+theorem rstrip_append_of_strip {v : List Char} (hs : strip v = v) (hne : v ≠ []) (b : List Char) (hb : allWs b) :
+    strip (v ++ b) = v := by
+  rw [strip_eq, dropWhile_of_strip hs hne, rstrip_append_ws _ _ hb, rstrip_of_strip hs hne]
+
+/-- a stripped value, a space, text with a non-blank: `strip` keeps the value, the space and the text up to its
+    last non-blank. -/
+theorem strip_value_more {v : List Char} (hs : strip v = v) (hne : v ≠ []) (x : List Char) (hx : ¬ allWs x) :
+    ∃ x', (∃ c ∈ x', isWs c = false) ∧ (∀ c ∈ x', c ∈ x) ∧ strip (v ++ ' ' :: x) = v ++ ' ' :: x' := by
+  rcases last_nonws x with h | ⟨x1, c, x2, rfl, hc, h2⟩
+  · exact absurd h hx
+  · refine ⟨x1 ++ [c], ⟨c, by simp, hc⟩, by intro d hd; simp at hd ⊢; tauto, ?_⟩
+    rw [strip_eq, dropWhile_of_strip hs hne]
+    have : v ++ ' ' :: (x1 ++ c :: x2) = ((v ++ ' ' :: x1) ++ [c]) ++ x2 := by simp
+    rw [this, rstrip_append_ws _ _ h2, rstrip_snoc _ _ hc]
+    simp
+
+/-! ### the split points are tried from the right -/
+
+theorem findSome_first {β : Type} (g : Nat → Option β) (t : β) (n : Nat) (L : List Nat)
+    (hp : L.Pairwise (· > ·)) (hn : n ∈ L) (hgn : g n = some t)
+    (hgt : ∀ j ∈ L, n < j → g j = none ∨ g j = some t) : L.findSome? g = some t := by
+  induction L with
+  | nil => cases hn
+  | cons a L ih =>
+    rw [List.findSome?_cons]
+    rcases List.mem_cons.mp hn with rfl | hn'
+    · rw [hgn]
+    · have ha : n < a := (List.pairwise_cons.mp hp).1 n hn'
+      rcases hgt a (List.mem_cons_self ..) ha with h | h
+      · rw [h]
+        exact ih (List.pairwise_cons.mp hp).2 hn' (fun j hj => hgt j (List.mem_cons_of_mem _ hj))
+      · rw [h]
+
+theorem splitPoints_pairwise (term : List Char) : (splitPoints term).Pairwise (· > ·) := by
+  unfold splitPoints
+  simp only
+  rw [List.pairwise_cons]
+  constructor
+  · intro j hj
+    rw [List.mem_reverse, List.mem_filter, List.mem_range] at hj
+    exact hj.1
+  · rw [List.pairwise_reverse]
+    exact List.Pairwise.filter _ (List.pairwise_lt_range)
+
+
+/-! ### set_literal on "value, space, unit expression" -/
+
+variable {K : Type} [Mul K] [Div K] [OfNat K 1] [IntCast K] [NatCast K]
+
+theorem readLit_nil : readLitCore [] = none := by decide
+
+theorem setLiteralV_value_unit (alg : Alg K) (env : List Char → Option K) (v u : List Char) (lit : Lit)
+    (sh : List Nat) (f : K)
+    (hv : readLitCore v = some (lit, true)) (hstrip : strip v = v) (hsh : lit.shape? = some sh) (hu : strip u ≠ [])
+    (hcomma : ',' ∉ u)
+    (hf : parseUnits alg env (some (strip u)) = some f) :
+    setLiteralV alg env (v ++ ' ' :: u) = some (sh, lit.flat.map fun me => litVal me.1 me.2 * f) := by
   have hvne : v ≠ [] := by
     rintro rfl
-    have h0 : numLit [] = none := by decide
-    rw [h0] at hv; cases hv
+    rw [readLit_nil] at hv; cases hv
+  have hvl : readLit v = some lit := by simp [readLit, hv]
   have hunw : ¬ allWs u := fun h => hu (strip_allWs u h)
-  unfold setLiteral
-  apply findSome_of
-  · intro j hj
-    rcases (mem_splitPoints _ j).mp hj with rfl | ⟨hlt, hsp⟩
-    · -- the whole term as value: it has an interior blank
+  have huE : (strip u).isEmpty = false := by
+    cases h : strip u with
+    | nil => exact absurd h hu
+    | cons _ _ => rfl
+  unfold setLiteralV
+  apply findSome_first _ _ v.length _ (splitPoints_pairwise _)
+  · exact (mem_splitPoints _ _).mpr (Or.inr ⟨by simp, by simp⟩)
+  · have htake : (v ++ ' ' :: u).take v.length = v := by simp
+    have hdrop : (v ++ ' ' :: u).drop v.length = ' ' :: u := by simp
+    have hsu : strip (' ' :: u) = strip u :=
+      strip_ws_prefix [' '] u (by intro c hc; simp at hc; subst hc; decide)
+    simp only [htake, hdrop, hstrip, hvl, hsh, hsu, huE, Bool.false_eq_true, if_false, hf]
+  · intro j hj hlt
+    rcases (mem_splitPoints _ j).mp hj with rfl | ⟨hjl, hsp⟩
+    · -- the whole term as value
       left
-      have h1 := strip_interior v u hvw hvne hunw
-      simp only [List.take_length]
-      rw [numLit_none_of_ws _ ' ' h1 (by decide)]
-    · -- a space of the term: not inside v
-      have hjv : v.length ≤ j := by
-        by_contra hlt'
-        have hlt' : j < v.length := by omega
-        rw [List.getElem?_append_left hlt'] at hsp
-        have hmem : ' ' ∈ v := List.mem_of_getElem? hsp
-        have := hvw ' ' hmem
-        revert this; decide
-      obtain ⟨k, rfl⟩ : ∃ k, j = v.length + k := ⟨j - v.length, by omega⟩
+      obtain ⟨x', hx', hsub, e⟩ := strip_value_more hstrip hvne u hunw
+      simp only [List.take_length, e, readLit_extend v x' lit hv hx' (fun h => hcomma (hsub _ h))]
+    · obtain ⟨k, rfl⟩ : ∃ k, j = v.length + k := ⟨j - v.length, by omega⟩
       have e2 : v.length + k - v.length = k := by omega
       have htake : (v ++ ' ' :: u).take (v.length + k) = v ++ (' ' :: u).take k := by
         rw [List.take_append, List.take_of_length_le (by omega), e2]
@@ -233,18 +519,13 @@ theorem setLiteral_value_unit (alg : Alg K) (env : List Char → Option K) (v u 
       simp only [htake, hdrop]
       by_cases hA : allWs ((' ' :: u).take k)
       · right
-        rw [strip_word_ws v _ hvw hvne hA, hv]
+        rw [rstrip_append_of_strip hstrip hvne _ hA, hvl]
         have hsu : strip ((' ' :: u).drop k) = strip u := by
           have e1 := strip_ws_prefix ((' ' :: u).take k) ((' ' :: u).drop k) hA
           rw [List.take_append_drop] at e1
           rw [← e1]
           exact strip_ws_prefix [' '] u (by intro c hc; simp at hc; subst hc; decide)
-        simp only [hsu]
-        have : (strip u).isEmpty = false := by
-          cases h : strip u with
-          | nil => exact absurd h hu
-          | cons _ _ => rfl
-        simp only [this, Bool.false_eq_true, if_false, hf]
+        simp only [hsh, hsu, huE, Bool.false_eq_true, if_false, hf]
       · left
         cases k with
         | zero => exact absurd (by intro c hc; simp at hc) hA
@@ -258,20 +539,8 @@ theorem setLiteral_value_unit (alg : Alg K) (env : List Char → Option K) (v u 
             rcases List.mem_cons.mp hc with rfl | hc
             · decide
             · exact h c hc
-          have h1 := strip_interior v (u.take k') hvw hvne hx
-          rw [numLit_none_of_ws _ ' ' h1 (by decide)]
-  · refine ⟨v.length, (mem_splitPoints _ _).mpr (Or.inr ⟨by simp, by simp⟩), ?_⟩
-    have htake : (v ++ ' ' :: u).take v.length = v := by simp
-    have hdrop : (v ++ ' ' :: u).drop v.length = ' ' :: u := by simp
-    simp only [htake, hdrop]
-    have h0 : strip v = v := by simpa using strip_word_ws v [] hvw hvne (by intro c hc; cases hc)
-    have hsu : strip (' ' :: u) = strip u :=
-      strip_ws_prefix [' '] u (by intro c hc; simp at hc; subst hc; decide)
-    have : (strip u).isEmpty = false := by
-      cases h : strip u with
-      | nil => exact absurd h hu
-      | cons _ _ => rfl
-    simp only [h0, hv, hsu, this, Bool.false_eq_true, if_false, hf]
+          obtain ⟨x', hx', hsub, e⟩ := strip_value_more hstrip hvne (u.take k') hx
+          simp only [e, readLit_extend v x' lit hv hx' (fun h => hcomma (List.mem_of_mem_take (hsub _ h)))]
 
 
 /-! ### the model's renderer writes the ordinary grammar -/
